@@ -89,6 +89,48 @@ def tie_T():
     return res
 
 
+def tie_T2():
+    """Second, tolerant translation (generic engine, helper methods inlined, semantic tie tactic): used when the
+    structural translator rejects a refactored source. If it holds, the code still computes the model's functions."""
+    from ..py2coq import tok2
+    core = os.path.join(C.REPO, "auditok", "core.py")
+    here = os.path.join(C.VERIF, "harness", "py2coq")
+    deps = [core] + [os.path.join(here, f) for f in ("tok2.py", "pure.py", "TokTie2.v", "TieTac.v")] + [os.path.join(C.COQ, "Tok", "Model.v"), os.path.join(C.COQ, "Base", "PyList.v")]
+    sha = C.sha_files(deps)
+    d = os.path.join(C.GEN, "tok2_" + sha)
+    res = {"sha": sha, "obligations": ["TokTie2:tie2_reinit", "TokTie2:tie2_eod", "TokTie2:tie2_process", "TokTie2:tie2_post_process",
+                                       "TokTie2:tie2_iter_step", "TokTie2:tie2_run", "TokTie2:tie2_tokenize", "TokTie2:tie2_validate"]}
+    with C.BuildLock():
+        marker = os.path.join(d, "RESULT")
+        if os.path.exists(marker):
+            txt = open(marker).read()
+            res["ok"] = txt.startswith("OK"); res["detail"] = txt
+            return res
+        os.makedirs(d, exist_ok=True)
+        try:
+            gen = tok2.emit(core)
+        except (tok2.TranslationError, SyntaxError, KeyError, IndexError, AttributeError, RecursionError) as e:
+            res["ok"] = False
+            res["detail"] = "the tolerant translator also rejects auditok/core.py: %s" % e
+            open(marker, "w").write("FAIL " + res["detail"])
+            return res
+        open(os.path.join(d, "TokGen2.v"), "w").write(gen)
+        for f in ("TieTac.v", "TokTie2.v"):
+            shutil.copy(os.path.join(here, f), d)
+        for f in ("TieTac.v", "TokGen2.v", "TokTie2.v"):
+            rc, out = C.sh(["coqc", "-Q", C.COQ, "AV", "-Q", ".", "AVGen"] + C.COQ_WARN + [f], cwd=d, timeout=900)
+            if rc != 0:
+                res["ok"] = False
+                res["detail"] = "%s does not check against the model generated from core.py by the tolerant translator: %s" % (f, out[-1200:])
+                open(marker, "w").write("FAIL " + res["detail"])
+                return res
+        res["ok"] = True
+        res["detail"] = "OK (tolerant translation) validate, reinit, iter_step (with process / post_process / eod inlined), run, tokenize = Model for all inputs (sha %s)" % sha
+        open(marker, "w").write(res["detail"])
+        C.prune_gen()
+    return res
+
+
 # ------------------------------------------------------------------ implementation side
 
 class ListSource:
@@ -617,6 +659,15 @@ def run(prop, tier):
     proof = C.proof_step(PROPS[prop])
     C.import_auditok()
     tie = tie_T()
+    if not tie["ok"]:
+        # the structural translator is strict about the shape of the source; a refactored but equivalent class is accepted
+        # when the tolerant translation proves it equal to the model
+        tie2 = tie_T2()
+        if tie2["ok"]:
+            tie = {"ok": True, "sha": tie2["sha"], "obligations": tie2["obligations"], "dir": None,
+                   "detail": tie2["detail"] + " [structural translator: " + tie["detail"][:200] + "]"}
+        else:
+            tie["detail"] = tie["detail"] + " || " + tie2["detail"]
     proof["tie_obligations"] = tie["obligations"]
     proof["trusted"] = [
         "translator harness/py2coq/tok.py (fail-closed Python-ast -> Gallina; Python semantics assumed: eager left-to-right evaluation, and/or on booleans, slice normalisation py_slice)",
